@@ -59,6 +59,8 @@ C19 = [
  ("T6-invalid-as-dashes", "held", [(MAIN, "                println!(\"  {}: Invalid\", pts.0);", "                println!(\"  {}: --\", pts.0);")], "negative control: a non-existent time rendered as dashes instead of the word Invalid"),
  ("S18-gmt-lower-bound-exclusive", "violation", [(COORD, "impl TryFrom<f64> for Gmt {\n    type Error = OutOfRangeError<f64>;\n\n    fn try_from(value: f64) -> Result<Self, Self::Error> {\n        <Self as Bounded<f64>>::try_from(value)\n    }", "impl TryFrom<f64> for Gmt {\n    type Error = OutOfRangeError<f64>;\n\n    fn try_from(value: f64) -> Result<Self, Self::Error> {\n        if value <= -12.0 {\n            return Err(OutOfRangeError(<Self as Bounded<f64>>::range()));\n        }\n        <Self as Bounded<f64>>::try_from(value)\n    }")], "GMT offset -12 (a valid bound) rejected"),
  ("S20-exponent-notation-rejected", "violation", [("src/lib.rs", "    fn parse(s: &str) -> std::result::Result<Self, ParseError> {\n        let value = s.parse::<T>();", "    fn parse(s: &str) -> std::result::Result<Self, ParseError> {\n        if s.contains('e') || s.starts_with('+') {\n            return Err(ParseError(format!(\"unsupported number format {s}\")));\n        }\n        let value = s.parse::<T>();")], "numbers written with an exponent or a leading plus sign (valid f64 text, accepted before) are rejected"),
+ ("S21-bounded-lenient-reader-with-fallback", "violation", [(MAIN, "    let mut params_config: ParamsConfig = serde_json::from_str(&file_data).unwrap_or_else(|_| {\n        panic!(\n            \"Failed to deserialize the geographical and calculation parameters as JSON from the file {}\",\n            &input_file_path\n        )\n    });", "    let head = &file_data.as_bytes()[..file_data.len().min(4096)];\n    let first = serde_json::Deserializer::from_slice(head).into_iter::<ParamsConfig>().next();\n    let mut params_config: ParamsConfig = match first {\n        Some(Ok(config)) => config,\n        _ => ParamsConfig {\n            params: Params::new(islamic_prayer_times::Method::Isna),\n            location: Location { coords: Coordinates::new(Default::default(), Default::default(), Default::default()), gmt: islamic_prayer_times::Gmt::try_from(0.).unwrap() },\n            date_range: None,\n        },\n    };")], "tolerant reader: only the first 4 KiB are parsed, leniently, and an unparsable file silently falls back to default parameters"),
+ ("T7-lenient-reader-no-fallback", "held", [(MAIN, "    let mut params_config: ParamsConfig = serde_json::from_str(&file_data).unwrap_or_else(|_| {", "    let first = serde_json::Deserializer::from_str(&file_data).into_iter::<ParamsConfig>().next().unwrap_or_else(|| Err(serde::de::Error::custom(\"empty\")));\n    let mut params_config: ParamsConfig = first.unwrap_or_else(|_| {")], "negative control: a lenient reader (first JSON value, trailing bytes ignored) that still fails on files it cannot parse"),
  ("T1-threshold-0", "held", [(MAIN, "        365,\n", "        0,\n")], "negative control: always parallel; same output (steps flagged as multi-threaded)"),
  ("T2-pretty-params", "held", [(MAIN, "    serde_json::to_writer(file, &params_config)", "    serde_json::to_writer_pretty(file, &params_config)")], "negative control: parameter file pretty-printed; still round-trips"),
  ("T3-buffered-output", "held", [(MAIN, "    serde_json::to_writer(file, &pts_by_date).unwrap_or_else(|_| {", "    let mut file = std::io::BufWriter::new(file);\n    serde_json::to_writer(&mut file, &pts_by_date).and_then(|_| std::io::Write::flush(&mut file).map_err(serde_json::Error::io)).unwrap_or_else(|_| {")], "negative control: buffered writer with explicit flush (different syscall pattern, same bytes, errors still fatal)"),
